@@ -443,6 +443,23 @@ func (r *runner) roundTrip(tg *target, v interface{}, hand []byte, src string) [
 			return enc
 		}
 	}
+	// concrete registered types also travel with their own prefix
+	// (EncodeToBytesWithType / DecodeBytesWithType): prefix + the same body
+	if !tg.iface && hand == nil {
+		var wt []byte
+		var err error
+		if _, _, _, p := try(func() { wt, err = ser.EncodeToBytesWithType(v) }); !p && err == nil && len(wt) != len(enc) {
+			if len(wt) != len(enc)+7 || !bytes.Equal(wt[7:], enc) {
+				r.violate("canonical", "canonical/withtype-body/"+tg.name, "EncodeToBytesWithType(%s) is not prefix+plain encoding: %x vs %x", tg.name, clipN(wt, 64), clipN(enc, 64))
+			} else if ow := r.decode(eBytesWT, tg, wt, nil, 0, src); !ow.panicked {
+				if rw, _ := r.encode(tg, tg.inner(ow.dst)); !ow.ok || !bytes.Equal(rw, enc) {
+					r.violate("roundtrip", "roundtrip/"+tg.name+"/withtype", "DecodeBytesWithType(EncodeToBytesWithType(v)) != v for %s (ok=%v)", tg.name, ow.ok)
+				} else {
+					r.c.Probe("withtype-roundtrip")
+				}
+			}
+		}
+	}
 	// the same through a stream entry point with short reads
 	lim := int64(len(enc))
 	if r.read.Bool(1, 2) {
@@ -829,6 +846,7 @@ func run(c *kernel.Ctx) {
 		var v interface{}
 		var hand []byte
 		src := ""
+		r.fil.Budget, r.real.Budget = 3000, 3000
 		switch s := cfg.Pick(wSrc...); {
 		case s == 2 && tg.handmade != nil:
 			hand = tg.handmade(r.gen)
@@ -845,8 +863,7 @@ func run(c *kernel.Ctx) {
 					v = impls[r.gen.Int(len(impls))](r.fil, 1).Interface()
 				}
 			} else {
-				r.fil.Budget = 3000
-				v = r.fil.New(derefSlice(tg.typ)).Interface()
+				v = r.fil.New(tg.typ).Interface()
 			}
 		default:
 			src = "realistic"
@@ -856,7 +873,6 @@ func run(c *kernel.Ctx) {
 			case tg.handmade != nil:
 				hand, src = tg.handmade(r.gen), "hand-made"
 			default:
-				r.real.Budget = 3000
 				v = r.real.New(tg.typ).Interface()
 			}
 		}
@@ -893,5 +909,3 @@ func run(c *kernel.Ctx) {
 	sort.Strings(names)
 	c.Sample(map[string]interface{}{"values_round_tripped": r.nRound, "types": names, "faulty_inputs": r.nFault, "faulty_inputs_that_decoded": r.nPenetrated})
 }
-
-func derefSlice(t reflect.Type) reflect.Type { return t }
